@@ -235,11 +235,11 @@ func c05Diff(ref, got *Outcome) (string, string) {
 	if !itEq(ref.Interrupted, got.Interrupted) {
 		return "interruption", fmt.Sprintf("fresh %v, recycled %v", ref.Interrupted, got.Interrupted)
 	}
-	if !reflect.DeepEqual(ref.Fired, got.Fired) {
+	if (len(ref.Fired) > 0 || len(got.Fired) > 0) && !reflect.DeepEqual(ref.Fired, got.Fired) {
 		return "fired-rules", fmt.Sprintf("fresh %v, recycled %v", ref.Fired, got.Fired)
 	}
 	for id, d := range ref.Data {
-		if !reflect.DeepEqual(d, got.Data[id]) {
+		if (len(d) > 0 || len(got.Data[id]) > 0) && !reflect.DeepEqual(d, got.Data[id]) {
 			c := "match-data"
 			if id == 9991 {
 				c = "state-dump"
@@ -247,10 +247,10 @@ func c05Diff(ref, got *Outcome) (string, string) {
 			return c, fmt.Sprintf("rule %d: fresh %q, recycled %q", id, d, got.Data[id])
 		}
 	}
-	if !reflect.DeepEqual(ref.TX, got.TX) {
+	if (len(ref.TX) > 0 || len(got.TX) > 0) && !reflect.DeepEqual(ref.TX, got.TX) {
 		return "tx-collection", fmt.Sprintf("fresh %v, recycled %v", ref.TX, got.TX)
 	}
-	if !reflect.DeepEqual(ref.Msgs, got.Msgs) {
+	if (len(ref.Msgs) > 0 || len(got.Msgs) > 0) && !reflect.DeepEqual(ref.Msgs, got.Msgs) {
 		return "messages", fmt.Sprintf("fresh %v, recycled %v", ref.Msgs, got.Msgs)
 	}
 	if ref.ReqBody != got.ReqBody {
@@ -259,16 +259,16 @@ func c05Diff(ref, got *Outcome) (string, string) {
 	if ref.RespBody != got.RespBody {
 		return "response-body-reader", fmt.Sprintf("fresh %q, recycled %q", ref.RespBody, got.RespBody)
 	}
-	if !reflect.DeepEqual(ref.Audit, got.Audit) {
+	if (len(ref.Audit) > 0 || len(got.Audit) > 0) && !reflect.DeepEqual(ref.Audit, got.Audit) {
 		return "audit-record", fmt.Sprintf("fresh %v, recycled %v", ref.Audit, got.Audit)
 	}
-	if !reflect.DeepEqual(ref.ErrCB, got.ErrCB) {
+	if (len(ref.ErrCB) > 0 || len(got.ErrCB) > 0) && !reflect.DeepEqual(ref.ErrCB, got.ErrCB) {
 		return "error-callback", fmt.Sprintf("fresh %v, recycled %v", ref.ErrCB, got.ErrCB)
 	}
 	if ref.CloseErr != got.CloseErr {
 		return "close-error", fmt.Sprintf("fresh %q, recycled %q", ref.CloseErr, got.CloseErr)
 	}
-	if !reflect.DeepEqual(ref.ErrSteps, got.ErrSteps) {
+	if (len(ref.ErrSteps) > 0 || len(got.ErrSteps) > 0) && !reflect.DeepEqual(ref.ErrSteps, got.ErrSteps) {
 		return "error-returns", fmt.Sprintf("fresh %v, recycled %v", ref.ErrSteps, got.ErrSteps)
 	}
 	return "", ""
